@@ -9,6 +9,7 @@ From Ais Require Import Model.Base Model.Enums Model.Fields Model.Messages Model
   Spec.Layouts Proofs.Bits Proofs.Reads Proofs.Layouts Proofs.Dispatch Proofs.MsgLevel Proofs.Interrogation Model.NomBits Proofs.NomBitsProof.
 From Ais Require Import Spec.Grammar Spec.Armor Proofs.EndToEnd Proofs.UnarmorProof.
 From Ais Require Import Proofs.Encode Proofs.RoundTrip Proofs.RoundTripLists Proofs.RoundTripForms Spec.Transmit Proofs.InOrder Proofs.Transmit Proofs.AirRoundTrip.
+From Ais Require Import Proofs.Dressing.
 From Coq Require Import Lia.
 Local Open Scope N_scope.
 
@@ -695,6 +696,21 @@ Print Assumptions C04_air_roundtrip_type21.
 
 (* non-vacuity of the round trips: a concrete assignment is in range, and the encoded payload is the
    one of the repository's own type 18 test vector up to its first 38 bits *)
+(* what a message says does not depend on how its sentence is dressed: two unfragmented sentences, accepted at the
+   sentence level, with the same payload and the same fill count decode alike — the same message or the same failure —
+   whatever their TAG blocks, delimiters, talkers, report types, sequence ids, channels, spellings of the numbers, and
+   whatever follows their checksums; and in whatever states the two parsers are ([decoded], Proofs/Dressing.v) *)
+Theorem C04_message_depends_on_payload_and_fill_only :
+  forall c q st1 st2 line1 line2 f1 f2 hex1 hex2,
+    Shaped c line1 f1 hex1 -> Shaped c line2 f2 hex2 ->
+    xor_fold (body_bytes f1) = checksum_read hex1 -> xor_fold (body_bytes f2) = checksum_read hex2 ->
+    dec_value (af_count f1) = 1 -> dec_value (af_number f1) = 1 ->
+    dec_value (af_count f2) = 1 -> dec_value (af_number f2) = 1 ->
+    af_payload f1 = af_payload f2 -> dec_value (af_fill f1) = dec_value (af_fill f2) ->
+    decoded (snd (step c q st1 line1 true)) = decoded (snd (step c q st2 line2 true)).
+Proof. exact message_depends_on_payload_and_fill_only. Qed.
+Print Assumptions C04_message_depends_on_payload_and_fill_only.
+
 Example C04_roundtrip_nonvacuous :
   in_range (fields18 0 423302100 15 14 1 53010996 19394016 1772 511 20 0 1 1 1 1 0 0 1 1 3 100) /\
   match parse_bits Std quirks_asis (enc (fields18 0 423302100 15 14 1 53010996 19394016 1772 511 20 0 1 1 1 1 0 0 1 1 3 100)) with
